@@ -43,7 +43,7 @@ def sufOut (suf : String) : Pred := .hasSuffix (.v .out) suf
 /-- body of the closure `waitPrompt(enter, suffix)` -/
 def wpBody (o : Out) : Prog :=
   .send "IssueCmd" ("c1p1 " ++ goQuote ("(?i)password:|" ++ ciscoStdPrompt)) o .abort ;; outSet ;;
-  .collect "v1 += r1" ;;
+  .collect "v1 = v1 + r1" ;;
   .assign .out false false (.trimSuffix (.v .out) " ") ;;
   .note "ret" "strings.HasSuffix(r1, c1p2)"
 
@@ -62,7 +62,7 @@ def ciscoLoginPre : Prog :=
   .send "WaitLogin" (goQuote "(?i)password:|\\(yes/no.*\\)\\?") .wait .abort ;; outDecl ;;
   .ite (.hasSuffix (.v .out) "?")
     (.send "IssueCmd" "\"yes\" \"(?i)password:\"" (.lit "yes") .abort ;; outSet) .nop ;;
-  .collect "v1 += r1" ;;
+  .collect "v1 = v1 + r1" ;;
   .defn "f1" (wpBody (.lit "<enter>")) ;;
   .call "f1" (wpBody .pass) ;;
   .ite (.val "f1(p1, \">\")" (sufOut ">"))
@@ -99,8 +99,9 @@ def parseConfig : Prog :=
 
 /-- `console.GetSSHConn` (inlined by the translator: it is the only thing between the credentials
 and the login dialogue that touches the wire) -/
-def sshConn : Prog :=
-  .send "SpawnWithArgs" "" .connect .fail ;; .note "assign" "r1, _, err := <reply>"
+def sshConn (field : String) : Prog :=
+  .send "SpawnWithArgs" "" .connect .fail ;; .note "assign" "r1, _, err := <reply>" ;;
+  .note "assign" (field ++ ", err = <reply>")
 
 def asaSetTerminal : Prog :=
   .send "GetCmdOutput" "\"sh pager\"" (.lit "sh pager") .abort ;; outDecl ;;
@@ -125,7 +126,7 @@ def asaCheckDeviceName : Prog :=
 
 def ciscoPreLogin : Prog :=
   errRet "nil, err" ;;
-  sshConn ;; errRet "nil, err"
+  sshConn "recv.Conn" ;; errRet "nil, err"
 
 def asaPostLogin : Prog :=
   .call "setTerminal" asaSetTerminal ;;
@@ -205,7 +206,7 @@ def linuxGetRoutes : Prog :=
 
 def linuxPreBanner : Prog :=
   errRet "nil, err" ;;
-  sshConn ;; errRet "nil, err" ;;
+  sshConn "recv.conn" ;; errRet "nil, err" ;;
   .call "loginEnable" linuxLoginEnable ;;
   .call "logVersion" linuxLogVersion ;;
   .call "checkDeviceName" linuxCheckDeviceName
@@ -291,12 +292,13 @@ def panLoadSuffix : Prog :=
   pureCall
     (.check (.opaque "" fun _ r _ => match r with | .conf _ _ => false | _ => true) "ret" "err"
       (.fail "While reading device: bad config")) ;;
-  .note "assign" "v1, err ⇐ r1" ;;
-  errRet "v1, Errorf(…)" ;;
+  .note "assign" "v2, err ⇐ r1" ;;
+  errRet "v2, Errorf(…)" ;;
   .call "checkDeviceName" panCheckDeviceName ;;
-  .note "ret" "v1, err"
+  .note "ret" "v2, err"
 
 def panLoadDevice (cfg : Cfg) : Prog :=
+  .note "assign" "v1 := \"\"" ;;
   .call "TryReachableHTTPLogin" (tryNames panLoginBody cfg.names) ;;
   .defn "" (panLoginBody "<name>") ;;
   errRet "nil, err" ;;
@@ -345,10 +347,15 @@ def nsxLoginBody (_n : String) : Prog :=
   .note "guard" "r1.StatusCode != http.StatusOK" ;; .block (.note "ret" "Errorf(…)") ;;
   .note "ret" "nil"
 
-def nsxPolicies : Out := .lit "GET /policy/api/v1/infra/domains/default/gateway-policies"
-def nsxPolicyPre : String := "GET /policy/api/v1/infra/domains/default/gateway-policies/"
-def nsxServicesPre : String := "GET /policy/api/v1/infra/services?cursor="
-def nsxGroupsPre : String := "GET /policy/api/v1/infra/domains/default/groups?cursor="
+/-- the three values of the variable `path` of `nsx.LoadDevice` (shown in its skeleton) -/
+def nsxPoliciesPath : String := "/policy/api/v1/infra/domains/default/gateway-policies"
+def nsxServicesPath : String := "/policy/api/v1/infra/services"
+def nsxGroupsPath : String := "/policy/api/v1/infra/domains/default/groups"
+
+def nsxPolicies : Out := .lit ("GET " ++ nsxPoliciesPath)
+def nsxPolicyPre : String := "GET " ++ nsxPoliciesPath ++ "/"
+def nsxServicesPre : String := "GET " ++ nsxServicesPath ++ "?cursor="
+def nsxGroupsPre : String := "GET " ++ nsxGroupsPath ++ "?cursor="
 
 def cursorOf : Reply → String
   | .page _ c => c
@@ -378,6 +385,7 @@ def nsxLoadDevice (cfg : Cfg) : Prog :=
   .call "TryReachableHTTPLogin" (tryNames nsxLoginBody cfg.names) ;;
   .defn "" (nsxLoginBody "<name>") ;;
   errRet "nil, err" ;;
+  .note "assign" ("v2 := " ++ goQuote nsxPoliciesPath) ;;
   .send "sendRequest" "\"GET\" v2" nsxPolicies .fail ;; .note "assign" "r2, err := <reply>" ;;
   errRet "nil, err" ;;
   .note "assign" "err, v3 ⇐ r2" ;;
@@ -388,7 +396,9 @@ def nsxLoadDevice (cfg : Cfg) : Prog :=
       (.sendCur "sendRequest" "\"GET\" v2 + \"/\" + v4.Id" nsxPolicyPre .fail ;;
        .note "assign" "r3, err := <reply>" ;; errRet "nil, err" ;;
        .note "assign" "v5.Policies ⇐ v5, r3") .nop) ;;
+  .note "assign" ("v2 = " ++ goQuote nsxServicesPath) ;;
   .call "getRawJSON" (nsxGetRawJSON nsxServicesPre) ;; errRet "nil, err" ;;
+  .note "assign" ("v2 = " ++ goQuote nsxGroupsPath) ;;
   .call "getRawJSON" (nsxGetRawJSON nsxGroupsPre) ;; errRet "nil, err" ;;
   .note "assign" "v6, err ⇐ v5" ;; errRet "nil, err" ;;
   .note "assign" "v7, err ⇐ v6" ;; errRet "nil, Errorf(…)" ;;
@@ -606,6 +616,7 @@ def nsxSendRequestSkel : List Item := [
   (0, "ret", "ReadAll(…)")]
 
 def panHttpPrefixGetLogSkel : List Item := [
+  (0, "assign", "p1 = recv.urlPrefix + p1"),
   (0, "send", "httpGet p1"), (0, "assign", "r1, err := <reply>"), (0, "ret", "r1, err")]
 
 def panHttpGetSkel : List Item := [
@@ -695,10 +706,10 @@ def frontEndFacts : List (String × List Item) := [
     [ (0, "assign", "v3 := path.Join(path.Join(v4, \"log\"), v2[1])"),
       (0, "switch", "v2[0]") ] ++
     doApproveCases.flatMap (fun c =>
-      [(1, "case", q c.1), (2, "assign", "v3 += " ++ q c.2)]) ++
+      [(1, "case", q c.1), (2, "assign", "v3 = v3 + " ++ q c.2)]) ++
     [ (1, "case", "default"), (2, "ret", "1"),
-      (0, "call", "device.ApproveOrCompare((v2[0] == " ++ q doApproveCompareWord ++
-        "), path.Join(v4, \"code\", v2[1]), v5, path.Join(v4, \"log\"), v3, false)") ])]
+      (0, "call", "device.ApproveOrCompare(v2[0] == " ++ q doApproveCompareWord ++
+        ", path.Join(v4, \"code\", v2[1]), v5, path.Join(v4, \"log\"), v3, false)") ])]
 
 def isFrontEndItem (it : Item) : Bool :=
   it.2.1 == "assign" || it.2.1 == "switch" || it.2.1 == "case" || it.2.1 == "fallthrough" ||
